@@ -14,10 +14,11 @@ BUFFER = "aiomysensors.gateway.MessageBuffer"
 
 def run(ctx: Ctx, chk) -> None:
     chk.assume("A1", "A3", "A4", "A5", "A6", "A7")
-    exhaust(ctx, chk)
-    drain1(ctx, chk)
-    eea_send(ctx, chk)
-    not_a_message(ctx, chk)
+    chk.run_rule(exhaust, ctx)
+    chk.run_rule(drain1, ctx)
+    chk.run_rule(eea_send, ctx)
+    chk.run_rule(not_a_message, ctx)
+    chk.run_rule(outcome1, ctx)
 
 
 def exhaust(ctx: Ctx, chk) -> None:
@@ -145,3 +146,43 @@ def not_a_message(ctx: Ctx, chk) -> None:
         chk.ok(rule, key, "missing field -> ValidationError", ctx.loc(post, post.node))
     else:
         chk.refute(rule, key, "the post_dump hook no longer converts a missing field (KeyError) into ValidationError: dumping a non-message raises KeyError", ctx.loc(post, post.node))
+
+
+def outcome1(ctx: Ctx, chk) -> None:
+    rule = "OUTCOME-1"
+    chk.rule(rule, "every normal path through every outgoing handler ends in exactly one outcome: the encoded line is handed to the transport, or the message is parked in a buffer - never neither (silently discarded) and never both")
+    from ..cfg import CFG
+    from . import sleepbuf as sb, tables
+    from .c07 import _paths
+
+    out_cells = tables.outgoing_cells(ctx)
+    done = set()
+    for V in ctx.versions:
+        for cell, cal in out_cells[V].items():
+            if cal is None:
+                continue
+            for f in tables.chain_defs(ctx, cal, V):
+                if f in done:
+                    continue
+                done.add(f)
+                chk.instance(rule)
+                g = CFG(f.node)
+                stores = set()
+                for attr in sb.BUFFERS:
+                    stores |= {id(sb._stmt(ctx, f, s[0])) for s in sb.store_sites(ctx, f, attr)}
+                writes = {id(sb._stmt(ctx, f, n)) for n in ctx.own_nodes(f) if isinstance(n, ast.Call) and norm(n.func).endswith("transport.write")}
+                delegates = {id(sb._stmt(ctx, f, n)) for n in ctx.own_nodes(f) if isinstance(n, ast.Call) and isinstance(n.func, ast.Attribute) and isinstance(n.func.value, ast.Call) and norm(n.func.value.func) == "super"}
+                bad = None
+                paths = _paths(g)
+                for p in paths:
+                    ev = [x for x in p if x.kind == "stmt" and (id(x.ast) in stores or id(x.ast) in writes or id(x.ast) in delegates)]
+                    if len(ev) != 1:
+                        bad = (p, ev)
+                        break
+                key = f"{f.fq}::one-outcome"
+                if bad is None and paths:
+                    chk.ok(rule, key, f"{len(paths)} path(s), each writes or parks exactly once", f.where, sample=len(done) <= 2)
+                else:
+                    p, ev = bad if bad else ([], [])
+                    chk.refute(rule, key, f"a path through {f.qualname} has {len(ev)} outcomes ({' -> '.join(g.path_text(p)[1:5])}): the message is {'silently discarded' if not ev else 'both parked and written'}", f.where)
+    chk.floor(rule, "outgoing handler definitions", len(done), 5)
